@@ -1323,6 +1323,174 @@ fn pool_bg_unpolled(kv: &BTreeMap<String, String>) -> Vec<String> {
     })
 }
 
+/// C02: a connection that is still busy with its previous exchange (released, open, `poll_ready` pending)
+/// must not be handed out.  Needs a connection type whose `is_open()` is independent of readiness, so this
+/// family drives the public `ConnectionPoolService` with its own `PoolableConnection` over hyperdriver's
+/// mock transport (cargo feature `mocks`): request 1 leaves connection 0 busy; `wait_ms` of real time pass
+/// (`idle_timeout_ms` is the pool's idle timeout); the hand-back task is woken without the connection having
+/// become ready; request 2 must not be given connection 0.
+fn pool_busy_handback(kv: &BTreeMap<String, String>) -> Vec<String> {
+    use hyperdriver::client::conn::connection::ConnectionError;
+    use hyperdriver::client::conn::stream::mock::MockStream;
+    use hyperdriver::client::conn::transport::mock::MockTransport;
+    use hyperdriver::client::conn::{Connection, ProtocolRequest};
+    use hyperdriver::client::pool::{PoolableConnection, Pooled};
+    use hyperdriver::client::{ConnectionPoolService, PoolConfig};
+    use hyperdriver::service::ExecuteRequest;
+    use hyperdriver::Body;
+    use std::future::{ready, Future, Ready};
+    use std::pin::Pin;
+    use std::sync::atomic::{AtomicBool, AtomicUsize, Ordering};
+    use std::sync::{Arc, Mutex};
+    use std::task::{Context, Poll, Waker};
+    use std::time::Duration;
+
+    #[derive(Debug, Default)]
+    struct ConnState {
+        busy: AtomicBool,
+        closed: AtomicBool,
+        waker: Mutex<Option<Waker>>,
+    }
+    impl ConnState {
+        fn progress(&self) {
+            if let Some(waker) = self.waker.lock().unwrap().take() {
+                waker.wake();
+            }
+        }
+        fn finish(&self) {
+            self.busy.store(false, Ordering::SeqCst);
+            self.progress();
+        }
+    }
+    #[derive(Debug)]
+    struct DemoError;
+    impl std::fmt::Display for DemoError {
+        fn fmt(&self, f: &mut std::fmt::Formatter<'_>) -> std::fmt::Result {
+            f.write_str("connection closed")
+        }
+    }
+    impl std::error::Error for DemoError {}
+    #[derive(Debug)]
+    struct DemoConn {
+        id: usize,
+        state: Arc<ConnState>,
+    }
+    impl Connection<Body> for DemoConn {
+        type ResBody = Body;
+        type Error = DemoError;
+        type Future = Ready<Result<http::Response<Body>, DemoError>>;
+        fn send_request(&mut self, _request: http::Request<Body>) -> Self::Future {
+            self.state.busy.store(true, Ordering::SeqCst);
+            ready(Ok(http::Response::new(Body::empty())))
+        }
+        fn poll_ready(&mut self, cx: &mut Context<'_>) -> Poll<Result<(), Self::Error>> {
+            if self.state.closed.load(Ordering::SeqCst) {
+                return Poll::Ready(Err(DemoError));
+            }
+            if self.state.busy.load(Ordering::SeqCst) {
+                *self.state.waker.lock().unwrap() = Some(cx.waker().clone());
+                return Poll::Pending;
+            }
+            Poll::Ready(Ok(()))
+        }
+        fn version(&self) -> http::Version {
+            http::Version::HTTP_11
+        }
+    }
+    impl PoolableConnection<Body> for DemoConn {
+        fn is_open(&self) -> bool {
+            !self.state.closed.load(Ordering::SeqCst)
+        }
+        fn can_share(&self) -> bool {
+            false
+        }
+        fn reuse(&mut self) -> Option<Self> {
+            None
+        }
+    }
+    #[derive(Debug, Clone, Default)]
+    struct DemoProtocol {
+        connections: Arc<Mutex<Vec<Arc<ConnState>>>>,
+        count: Arc<AtomicUsize>,
+    }
+    impl tower::Service<ProtocolRequest<MockStream, Body>> for DemoProtocol {
+        type Response = DemoConn;
+        type Error = ConnectionError;
+        type Future = Ready<Result<DemoConn, ConnectionError>>;
+        fn poll_ready(&mut self, _: &mut Context<'_>) -> Poll<Result<(), Self::Error>> {
+            Poll::Ready(Ok(()))
+        }
+        fn call(&mut self, _req: ProtocolRequest<MockStream, Body>) -> Self::Future {
+            let state = Arc::new(ConnState::default());
+            self.connections.lock().unwrap().push(state.clone());
+            ready(Ok(DemoConn { id: self.count.fetch_add(1, Ordering::SeqCst), state }))
+        }
+    }
+    type Log = Arc<Mutex<Vec<(usize, bool)>>>;
+    #[derive(Debug, Clone, Default)]
+    struct Observe {
+        log: Log,
+    }
+    impl tower::Service<ExecuteRequest<Pooled<DemoConn, Body>, Body>> for Observe {
+        type Response = http::Response<Body>;
+        type Error = hyperdriver::client::Error;
+        type Future = Pin<Box<dyn Future<Output = Result<Self::Response, Self::Error>> + Send>>;
+        fn poll_ready(&mut self, _: &mut Context<'_>) -> Poll<Result<(), Self::Error>> {
+            Poll::Ready(Ok(()))
+        }
+        fn call(&mut self, req: ExecuteRequest<Pooled<DemoConn, Body>, Body>) -> Self::Future {
+            let (mut conn, request) = req.into_parts();
+            let busy = conn.state.busy.load(Ordering::SeqCst);
+            self.log.lock().unwrap().push((conn.id, busy));
+            Box::pin(async move { conn.send_request(request).await.map_err(|error| hyperdriver::client::Error::Connection(error.into())) })
+        }
+    }
+    let idle_ms: u64 = kv.get("idle_timeout_ms").and_then(|s| s.parse().ok()).unwrap_or(50);
+    let wait_ms: u64 = kv.get("wait_ms").and_then(|s| s.parse().ok()).unwrap_or(80);
+    let rt = tokio::runtime::Builder::new_current_thread().enable_all().build().unwrap();
+    rt.block_on(async move {
+        let request = || http::Request::builder().uri("http://demo.test/").body(Body::empty()).unwrap();
+        let settle = || async {
+            for _ in 0..10 {
+                tokio::task::yield_now().await;
+            }
+        };
+        let protocol = DemoProtocol::default();
+        let observe = Observe::default();
+        let mut config = PoolConfig::default();
+        config.idle_timeout = if idle_ms == 0 { None } else { Some(Duration::from_millis(idle_ms)) };
+        config.max_idle_per_host = 4;
+        config.continue_after_preemption = false;
+        let client: ConnectionPoolService<MockTransport, DemoProtocol, _, Body> =
+            ConnectionPoolService::new(MockTransport::single(), protocol.clone(), observe.clone(), config);
+        let mut out = vec![];
+        if client.request(request()).await.is_err() {
+            out.push("r0=err".into());
+        }
+        settle().await;
+        let first = protocol.connections.lock().unwrap()[0].clone();
+        std::thread::sleep(Duration::from_millis(wait_ms));
+        first.progress(); // woken, not ready
+        settle().await;
+        if client.request(request()).await.is_err() {
+            out.push("r1=err".into());
+        }
+        settle().await;
+        for state in protocol.connections.lock().unwrap().iter() {
+            state.finish();
+        }
+        settle().await;
+        let _ = client.request(request()).await;
+        let log = observe.log.lock().unwrap().clone();
+        let busy = log.iter().any(|(_, b)| *b);
+        out.push(format!("log={log:?}").replace(' ', ""));
+        out.push(format!("busy_handout={}", busy as u8));
+        out.push(format!("conns={}", protocol.connections.lock().unwrap().len()));
+        out.push("result=ok".into());
+        out
+    })
+}
+
 /// C06: the pool key derived from a request (public `UriKey: TryFrom<&request::Parts>` + Display).
 fn urikey(kv: &BTreeMap<String, String>) -> Vec<String> {
     let mut parts = http::uri::Parts::default();
@@ -1720,6 +1888,7 @@ pub fn dispatch(family: &str, kv: &BTreeMap<String, String>) -> Vec<String> {
         "pool_release" => pool_release(kv),
         "pool_h2_followers" => pool_h2_followers(kv),
         "pool_bg_unpolled" => pool_bg_unpolled(kv),
+        "pool_busy_handback" => pool_busy_handback(kv),
         "pool_idle_limit" => pool_idle_limit(kv),
         "pool_idle_closed" => pool_idle_closed(kv),
         "pool_idle_expiry" => pool_idle_expiry(kv),
